@@ -23,7 +23,19 @@ Reading guide (property text → theorem):
   `rejected_step_id`;  `GetNewId` → `getNewId_fresh`;
 * one system's default units never leak into another (repair b5b3988) → `setDefaultUnit_frame`,
   `removeCategory_effect`, `removeCategory_absent`; mappings stay proper dicts → `DictsWf`,
-  `step_preserves_DictsWf`, `reachable_DictsWf`.
+  `step_preserves_DictsWf`, `reachable_DictsWf`;
+* value objects (`Register`, `UpdateObjects`, `_IdentityWrap`): "registered objects are updated exactly when
+  (and to what) the callbacks fire" → `objects_follow_on_current` (`specUnit` says to what);
+  `register_spec`, `registerAgain_spec`, `updateObjects_spec`, `kill_spec`; what the code does on a
+  default-unit change → `default_unit_change_keeps_objects`, `updateObjects_propagates_default`,
+  `updateObjects_after_setCurrent_id`; "an object that died is dropped" → `ObjsWf`,
+  `step_preserves_ObjsWf`, `reachable_ObjsWf`, `dead_object_is_never_touched`,
+  `run_dead_object_is_never_touched`;
+* observers and `ResetInstance` → `resetInstance_spec`, `seen_exact`, `seen_all_of_observed`,
+  `seen_nil_of_unobserved`, `observers_frame`, `reset_silences`;
+* `SetCaption` / `SetReadOnly` → `setCaption_frame`, `setReadOnly_frame`, `readOnly_is_not_enforced`;
+* the module's error classes → `template_rejected_names_a_system` (+ `add_rejected_is_key_error`).
+  `UnitSystemManager.__init__` takes no arguments in this code base: `Mgr.init` is the only construction.
 -/
 import Barril.Proofs.MgrLemmas
 import Barril.Gen.Dbs
@@ -63,6 +75,7 @@ theorem step_preserves_MgrWf (db : Db) {m : Mgr} (hw : MgrWf m) (op : Op) : MgrW
   | getUnitSystems => rw [(step_query db m (op := .getUnitSystems) rfl).1]; exact hw
   | getCurrent => rw [(step_query db m (op := .getCurrent) rfl).1]; exact hw
   | sysEqOther a => rw [(step_query db m (op := .sysEqOther a) rfl).1]; exact hw
+  | setSystemClass ok => rw [(step_query db m (op := .setSystemClass ok) rfl).1]; exact hw
   | register c u => exact step_aux_wf db hw (op := .register c u) rfl
   | registerAgain i => exact step_aux_wf db hw (op := .registerAgain i) rfl
   | kill i => exact step_aux_wf db hw (op := .kill i) rfl
@@ -175,6 +188,7 @@ theorem step_preserves_MgrInv_partial (db : Db) {m : Mgr} (h : MgrInv m) (op : O
   | getUnitSystems => rw [(step_query db m (op := .getUnitSystems) rfl).1]; exact hcr
   | getCurrent => rw [(step_query db m (op := .getCurrent) rfl).1]; exact hcr
   | sysEqOther a => rw [(step_query db m (op := .sysEqOther a) rfl).1]; exact hcr
+  | setSystemClass ok => rw [(step_query db m (op := .setSystemClass ok) rfl).1]; exact hcr
   | register c u => exact curRegistered_of_eq (step_aux db m (op := .register c u) rfl).1 (step_aux db m (op := .register c u) rfl).2.1 hcr
   | registerAgain i => exact curRegistered_of_eq (step_aux db m (op := .registerAgain i) rfl).1 (step_aux db m (op := .registerAgain i) rfl).2.1 hcr
   | kill i => exact curRegistered_of_eq (step_aux db m (op := .kill i) rfl).1 (step_aux db m (op := .kill i) rfl).2.1 hcr
@@ -271,6 +285,7 @@ theorem rejected_step_id (db : Db) (m : Mgr) (op : Op) {e : ErrKind} (h : (step 
   | getUnitSystems => exact step_query db m (op := .getUnitSystems) rfl
   | getCurrent => exact step_query db m (op := .getCurrent) rfl
   | sysEqOther a => exact step_query db m (op := .sysEqOther a) rfl
+  | setSystemClass ok => exact step_query db m (op := .setSystemClass ok) rfl
   | register c u => exact ⟨step_aux_rejected db m (op := .register c u) rfl h, (step_aux db m (op := .register c u) rfl).2.2.2⟩
   | registerAgain i => exact ⟨step_aux_rejected db m (op := .registerAgain i) rfl h, (step_aux db m (op := .registerAgain i) rfl).2.2.2⟩
   | kill i => exact ⟨step_aux_rejected db m (op := .kill i) rfl h, (step_aux db m (op := .kill i) rfl).2.2.2⟩
@@ -546,6 +561,7 @@ theorem notify_exact (db : Db) {m : Mgr} (hw : MgrWf m) (op : Op) :
   | getUnitSystems => rw [(step_query db m (op := .getUnitSystems) rfl).2]; split <;> rfl
   | getCurrent => rw [(step_query db m (op := .getCurrent) rfl).2]; split <;> rfl
   | sysEqOther a => rw [(step_query db m (op := .sysEqOther a) rfl).2]; split <;> rfl
+  | setSystemClass ok => rw [(step_query db m (op := .setSystemClass ok) rfl).2]; split <;> rfl
   | register c u => rw [(step_aux db m (op := .register c u) rfl).2.2.2]; split <;> rfl
   | registerAgain i => rw [(step_aux db m (op := .registerAgain i) rfl).2.2.2]; split <;> rfl
   | kill i => rw [(step_aux db m (op := .kill i) rfl).2.2.2]; split <;> rfl
@@ -613,6 +629,7 @@ theorem current_change_is_notified (db : Db) {m : Mgr} (hw : MgrWf m) (op : Op)
     | getUnitSystems => exact absurd (by rw [(step_query db m (op := .getUnitSystems) rfl).1]) hne
     | getCurrent => exact absurd (by rw [(step_query db m (op := .getCurrent) rfl).1]) hne
     | sysEqOther a => exact absurd (by rw [(step_query db m (op := .sysEqOther a) rfl).1]) hne
+    | setSystemClass ok => exact absurd (by rw [(step_query db m (op := .setSystemClass ok) rfl).1]) hne
     | register c u => exact absurd (step_aux db m (op := .register c u) rfl).1 hne
     | registerAgain i => exact absurd (step_aux db m (op := .registerAgain i) rfl).1 hne
     | kill i => exact absurd (step_aux db m (op := .kill i) rfl).1 hne
@@ -773,6 +790,7 @@ theorem step_preserves_DictsWf (db : Db) {m : Mgr} (hd : DictsWf m) (op : Op) : 
   | getUnitSystems => rw [(step_query db m (op := .getUnitSystems) rfl).1]; exact hd
   | getCurrent => rw [(step_query db m (op := .getCurrent) rfl).1]; exact hd
   | sysEqOther a => rw [(step_query db m (op := .sysEqOther a) rfl).1]; exact hd
+  | setSystemClass ok => rw [(step_query db m (op := .setSystemClass ok) rfl).1]; exact hd
   | register c u => exact step_aux_dictsWf db hd (op := .register c u) rfl
   | registerAgain i => exact step_aux_dictsWf db hd (op := .registerAgain i) rfl
   | kill i => exact step_aux_dictsWf db hd (op := .kill i) rfl
@@ -890,6 +908,7 @@ theorem step_preserves_ObjsWf (db : Db) {m : Mgr} (h : ObjsWf m) (op : Op) : Obj
   | getUnitSystems => rw [(step_query db m (op := .getUnitSystems) rfl).1]; exact h
   | getCurrent => rw [(step_query db m (op := .getCurrent) rfl).1]; exact h
   | sysEqOther a => rw [(step_query db m (op := .sysEqOther a) rfl).1]; exact h
+  | setSystemClass ok => rw [(step_query db m (op := .setSystemClass ok) rfl).1]; exact h
   | register c u => exact step_aux_objsWf db h (op := .register c u) rfl
   | registerAgain i => exact step_aux_objsWf db h (op := .registerAgain i) rfl
   | kill i => exact step_aux_objsWf db h (op := .kill i) rfl
@@ -1003,6 +1022,7 @@ theorem objects_follow_on_current (db : Db) {m : Mgr} (hw : MgrWf m) (op : Op) (
   | getUnitSystems => apply follow_of_silent <;> simp [(step_query db m (op := .getUnitSystems) rfl)]
   | getCurrent => apply follow_of_silent <;> simp [(step_query db m (op := .getCurrent) rfl)]
   | sysEqOther a => apply follow_of_silent <;> simp [(step_query db m (op := .sysEqOther a) rfl)]
+  | setSystemClass ok => apply follow_of_silent <;> simp [(step_query db m (op := .setSystemClass ok) rfl)]
   | register c u => simp [Op.isObjectOp] at hop
   | registerAgain i => simp [Op.isObjectOp] at hop
   | kill i => simp [Op.isObjectOp] at hop
@@ -1252,6 +1272,7 @@ theorem observers_frame (db : Db) (m : Mgr) (op : Op) (hop : op.isObserverOp = f
   | getUnitSystems => rw [(step_query db m (op := .getUnitSystems) rfl).1]; exact ⟨rfl, rfl⟩
   | getCurrent => rw [(step_query db m (op := .getCurrent) rfl).1]; exact ⟨rfl, rfl⟩
   | sysEqOther a => rw [(step_query db m (op := .sysEqOther a) rfl).1]; exact ⟨rfl, rfl⟩
+  | setSystemClass ok => rw [(step_query db m (op := .setSystemClass ok) rfl).1]; exact ⟨rfl, rfl⟩
   | register c u => exact ⟨rfl, rfl⟩
   | registerAgain i =>
     simp only [step, registerAgain]
